@@ -111,6 +111,15 @@ func (n *vfNet) Serve(addr string, h http.Handler) {
 	go srv.Serve(l) //nolint
 }
 
+// Listen registers a listener for addr (used by code under test that opens its own listener through a seam).
+func (n *vfNet) Listen(addr string) net.Listener {
+	l := vfNewListener(addr)
+	n.mu.Lock()
+	n.hosts[addr] = l
+	n.mu.Unlock()
+	return l
+}
+
 func (n *vfNet) SetRefuse(addr string, v bool) {
 	n.mu.Lock()
 	n.refuse[addr] = v
